@@ -146,6 +146,12 @@ impl Shard {
     }
 
     pub fn print(&self) {
-        println!("SHARD-RESULT {}", serde_json::to_string(&self.to_json()).unwrap());
+        // one write for the whole line: several interpreters may share this stdout (Miri many-seeds)
+        use std::io::Write;
+        let line = format!("\nSHARD-RESULT {}\n", serde_json::to_string(&self.to_json()).unwrap());
+        let out = std::io::stdout();
+        let mut l = out.lock();
+        let _ = l.write_all(line.as_bytes());
+        let _ = l.flush();
     }
 }
